@@ -40,8 +40,10 @@ def unreadable(kind):
             "tot0": bytes([6, 0x10, 4, 0x21, 0, 0, 1, 0]), "tot5": bytes([6, 0x10, 2, 8, 0, 5, 1, 0])}[kind]
 
 
-def feed(transport_kind, stream_frames, chunks):
-    """run one chunking through a fresh transport; returns (delivered ids, raised)"""
+def feed(transport_kind, stream_frames, chunks, other=False):
+    """run one chunking through a fresh transport; returns (delivered ids, raised).
+    other: a second connection of the same kind is open at the same time and receives pieces of its own stream in between
+    (a tunnel next to a management connection; the connection that was lost in the middle of a frame before this one was made)"""
     from xknx.io.ip_secure import SecureSession
     from xknx.io.transport import TCPTransport
 
@@ -55,19 +57,31 @@ def feed(transport_kind, stream_frames, chunks):
         delivered.append(getattr(b, "communication_channel_id", getattr(b, "secure_session_id", -1)))
 
     tr.register_callback(cb)
+    tr2, data2, pos2 = None, good(77, 10)[:7] + good(78) + good(79, 26), 0
+    if other:
+        tr2 = TCPTransport(("10.0.0.3", 3671)) if transport_kind == "tcp" else \
+            SecureSession(("10.0.0.3", 3671), user_id=2, user_password="pw", device_authentication_password=None)
+        tr2.register_callback(lambda *a: None)
+        tr2.data_received_callback(good(76)[:5])          # ... which holds the beginning of a frame when this one starts
     pos = 0
-    for c in chunks:
+    for n, c in enumerate(chunks):
         try:
             tr.data_received_callback(data[pos:pos + c])
         except Exception:  # noqa: BLE001 - an exception leaving the transport callback: recorded
             raised = 1
         pos += c
+        if tr2 is not None and pos2 < len(data2):
+            try:
+                tr2.data_received_callback(data2[pos2:pos2 + 1 + n % 9])
+            except Exception:  # noqa: BLE001 - the other connection's own business
+                pass
+            pos2 += 1 + n % 9
     return delivered, raised
 
 
-def case(transport_kind, stream, chunks):
+def case(transport_kind, stream, chunks, other=False):
     """stream: list of (octets, cls, id)"""
-    delivered, raised = feed(transport_kind, [(f, c) for f, c, _ in stream], chunks)
+    delivered, raised = feed(transport_kind, [(f, c) for f, c, _ in stream], chunks, other)
     ids = {fid: k + 1 for k, (_, c, fid) in enumerate(stream) if c == "good"}
     return {"t": "tcp", "frames": [{"len": len(f), "cls": c} for f, c, _ in stream],
             "delivered": [ids.get(d, 1000 + k) for k, d in enumerate(delivered)], "raised": raised}
@@ -134,9 +148,9 @@ def run(ck):
     with virtual_world(ck.seed):
         for kind, s, limit in streams(ck, rnd):
             total = sum(len(f) for f, _, _ in s)
-            for ch in chunkings(total, rnd, limit):
-                cases.append(case(kind, s, ch))
-                meta.append((kind, [(f.hex(), c) for f, c, _ in s], ch))
+            for n_, ch in enumerate(chunkings(total, rnd, limit)):
+                cases.append(case(kind, s, ch, other=(n_ % 4 == 3)))
+                meta.append((kind + (" (a second connection open)" if n_ % 4 == 3 else ""), [(f.hex(), c) for f, c, _ in s], ch))
         # UDP: datagrams of the C20 plan
         ins = c20.inputs(ck)
         if ck.tier == "quick":
@@ -191,13 +205,15 @@ def replay(ck, path):
 
     d = json.loads(open(path).read())["replay"]
     m = d["meta"]
+    other = "second connection" in m[0]
+    m[0] = m[0].split(" ")[0]
     if m[0] in ("tcp", "secure"):
         stream = []
         for k, (h, cl) in enumerate(m[1]):
             f = bytes.fromhex(h)
             stream.append((f, cl, f[6] if m[0] == "tcp" else f[7]))
         with virtual_world(0):
-            c = case(m[0], stream, m[2])
+            c = case(m[0], stream, m[2], other)
         res = tlc.batch(ck, "io/TcpStream_Judge", [c])
         print(c, "rejected" if res.bad else "accepted")
         return 1 if res.bad else 0
